@@ -202,7 +202,7 @@ Definition gets_of (f : bytes -> value) (univ : list bytes) : list (bytes * valu
 Inductive mismatch :=
 | MTop | MMid | MBase | MClean | MLL | MCached | MGets | MIter | MCGet | MDirtySegs | MDirtyOps
 | MHeld (id : nat) | MStore
-| SpecGets | SpecIter | SpecCGet | SpecHeld (id : nat) | SpecReopenPrefix.
+| SpecGets | SpecIter | SpecCGet | SpecHeld (id : nat) | SpecReopenPrefix | SpecZeroGauges.
 
 Definition flag (b : bool) (m : mismatch) : list mismatch := if b then [] else [m].
 
@@ -252,4 +252,13 @@ Definition fcheck (r : frs) (univ : list bytes) (o : fobs) : list mismatch :=
   ++ flag (list_eqb kv_eqb (gets_of (ref_now r) univ) (o_gets o)) SpecGets
   ++ flag (list_eqb kv_eqb (ref_iter r) (o_iter o)) SpecIter
   ++ flag (list_eqb kv_eqb (gets_of (ref_now r) univ) (o_cget o)) SpecCGet
-  ++ flag (reopen_ok r) SpecReopenPrefix.
+  ++ flag (reopen_ok r) SpecReopenPrefix
+  (* C20: zero dirty gauges => the store's own snapshot equals the reference *)
+  ++ flag (match kind r, o_store o with
+           | LLNone, _ => true
+           | _, Some f =>
+               negb (Nat.eqb (o_dirty_ops o) 0 && Nat.eqb (o_dirty_segs o) 0)
+               || forallb (fun k => value_eqb (llv fm0 (rev f) k) (ref_now r k))
+                          (all_keys (hist r ++ base0 r ++ f))
+           | _, None => true
+           end) SpecZeroGauges.
